@@ -118,7 +118,7 @@ Lemma tip_step_inv c q t q' b :
 Proof.
   intros C K E T NB NI. destruct (tip_plan_spec c t K) as (p & Ep & _).
   destruct p as [[[qs qe] entries]|].
-  - destruct (update_chain_tip_spec c q t qs qe entries C K Ep (T _ _ _ Ep)) as (q2 & E2 & C2 & _ & _ & PC & _ & PI).
+  - destruct (update_chain_tip_spec c q t qs qe entries C K Ep (T _ _ _ Ep)) as (q2 & E2 & C2 & _ & _ & PC & _ & PI & _).
     rewrite E in E2. injection E2 as <-. split; [|exact PC]. intros h Hb Hi. apply (NI h Hb). apply (PI NB). exact Hi.
   - unfold update_chain_tip in E. rewrite Ep in E. cbn [bind] in E. injection E as <-. auto.
 Qed.
